@@ -109,6 +109,28 @@ func vH_C02_window_update() {
 	}
 	var seg *segment
 	isAck := vNondetBool("ack")
+	if vNondetBool("sessionSegment") {
+		// a (duplicate / late) open-session response at a client, open-session
+		// request at a server: a session segment carries no acknowledgement - the
+		// send buffer and the peer's window must stay as they are
+		p := uint8(openSessionRequest)
+		if isClient {
+			p = uint8(openSessionResponse)
+		}
+		sseg := &segment{metadata: &sessionStruct{baseStruct: baseStruct{protocol: p}, sessionID: 7, seq: vNondetU32("s.seq")}, transport: common.PacketTransport}
+		w0 := s.remoteWindowSize.Load()
+		err := s.input(sseg)
+		vAssert(err == nil, "session segment accepted")
+		sb := vModelOf(s.sendBuf)
+		vAssert(sb.n == k, "a session segment acknowledges nothing: every unacknowledged segment stays in the send buffer (and stays eligible for retransmission)")
+		for i := 0; i < 2; i++ {
+			if i < k {
+				vAssert(sb.items[i] == infl[i], "the send buffer is untouched")
+			}
+		}
+		vAssert(s.remoteWindowSize.Load() == w0, "a session segment does not change the peer's advertised window")
+		return
+	}
 	if isAck {
 		p := uint8(ackServerToClient)
 		if !isClient {
